@@ -1,6 +1,8 @@
 //! C08: the log of action calls (production, rule, span, arguments) of the real parser against the
-//! action model (recovery off: `I` vs `M`) and against the specification derived from the final tree
-//! (both recovery modes: `V`); the parse-parameter and the generic-tree mode are checked harness-side.
+//! action model (recovery off: `I` vs `M` = `Act.parseA`; recovery on: `Ir` vs `Mr` = the model of the
+//! recovering driver `RecAct.recRunA` replaying the reported first repair sequences — log AND returned
+//! tree, exactly) and against the specification derived from the final tree (both recovery modes: `V`);
+//! the parse-parameter and the generic-tree mode are checked harness-side.
 use crate::gen::automaton::dump_automaton;
 use crate::gen::grammar::{self, GenCfg};
 use crate::gen::parse::{lr_terminates, parse_action_generictree_shape, parse_action_generictree_shape_costs, parse_actions, parse_generic_shape, parse_generic_shape_costs, ActionCall, PTree, STRIDE, TOKLEN};
@@ -44,6 +46,29 @@ fn enc_log(log: &[ActionCall], out: &mut Vec<usize>) {
     }
 }
 
+/// the reported errors of a recovering parse: `nerr (laidx nseq (len (op arg)…)…)…`, `op` 0 insert t /
+/// 1 delete idx / 2 shift idx (as in C05)
+fn enc_errs(errs: &[crate::gen::parse::PErr], ntoks_in_input: usize, out: &mut Vec<usize>) {
+    out.push(errs.len());
+    for e in errs {
+        out.push(e.laidx(ntoks_in_input));
+        out.push(e.repairs.len());
+        for seq in &e.repairs {
+            out.push(seq.len());
+            for r in seq {
+                let (op, arg) = r.split_at(1);
+                let a: usize = arg.parse().unwrap_or(0);
+                out.push(match op {
+                    "I" => 0,
+                    "D" => 1,
+                    _ => 2,
+                });
+                out.push(a);
+            }
+        }
+    }
+}
+
 fn log_text(log: &[ActionCall]) -> String {
     log.iter()
         .map(|c| {
@@ -76,6 +101,7 @@ pub fn emit(out: &mut Out, worker: &mut Worker, text: &str, rng: &mut Rng, thoro
     let mut hfail: Option<String> = None;
     let mut body: Vec<usize> = Vec::new();
     let mut ilines = Vec::new();
+    let mut rlines = Vec::new();
     let mut k = 0usize;
     let mut n_eps_calls = 0u64;
     let mut n_calls = 0u64;
@@ -151,19 +177,33 @@ pub fn emit(out: &mut Out, worker: &mut Worker, text: &str, rng: &mut Rng, thoro
                         // re-run in process to get the structured result (deterministic now)
                         if let Ok(p3) = guarded(std::panic::AssertUnwindSafe(|| parse_actions(&g, &st, w, RecoveryKind::CPCTPlus, cref))) {
                             if let Some(t3) = &p3.tree {
-                                if &t3.to_text() == tt {
+                                if &t3.to_text() == tt && p3.wall_ms < 450 {
                                     body.extend(plist(w).split(' ').map(|x| x.parse::<usize>().unwrap()));
                                     body.push(1);
                                     body.push(1);
                                     enc_tree(t3, &mut body);
                                     enc_log(&p3.log, &mut body);
+                                    enc_errs(&p3.errors, w.len(), &mut body);
+                                    rlines.push(format!("{} acc {} | {}", k, log_text(&p3.log), t3.to_text()));
                                     k += 1;
                                     n_rec_values += 1;
-                                    if let Some(shape) = parse_generic_shape_costs(&g, &st, w, RecoveryKind::CPCTPlus, cref) {
-                                        if shape != shape_of(&g, t3) {
+                                    // the other two entry points, re-run in process: a run that took longer than the
+                                    // recoverer's time budget allows may have been cut short (machine load) and is not judged
+                                    let t0 = std::time::Instant::now();
+                                    let shape0 = parse_generic_shape_costs(&g, &st, w, RecoveryKind::CPCTPlus, cref);
+                                    let d0 = t0.elapsed().as_millis();
+                                    if let Some(shape) = shape0 {
+                                        if d0 >= 450 {
+                                            out.count("reruns_slower_than_the_recovery_budget_not_compared");
+                                        } else if shape != shape_of(&g, t3) {
                                             hfail.get_or_insert(format!("parse_map tree differs from the action tree under recovery on {:?}", w));
                                         }
-                                        if guarded(std::panic::AssertUnwindSafe(|| parse_action_generictree_shape_costs(&g, &st, w, RecoveryKind::CPCTPlus, cref))).ok().flatten().as_ref() != Some(&shape) {
+                                        let t1 = std::time::Instant::now();
+                                        let ag = guarded(std::panic::AssertUnwindSafe(|| parse_action_generictree_shape_costs(&g, &st, w, RecoveryKind::CPCTPlus, cref))).ok().flatten();
+                                        let d1 = t1.elapsed().as_millis();
+                                        if d0 >= 450 || d1 >= 450 {
+                                            out.count("reruns_slower_than_the_recovery_budget_not_compared");
+                                        } else if ag.as_ref() != Some(&shape) {
                                             hfail.get_or_insert(format!("the tree built with lrpar::action_generictree differs from the generic parse-tree mode under recovery on {:?}", w));
                                         }
                                     }
@@ -179,6 +219,9 @@ pub fn emit(out: &mut Out, worker: &mut Worker, text: &str, rng: &mut Rng, thoro
     out.case("C08", id, &payload);
     for l in ilines {
         out.imp(id, "I", &l);
+    }
+    for l in rlines {
+        out.imp(id, "Ir", &l);
     }
     match hfail {
         None => out.imp(id, "H", "ok"),
